@@ -8,6 +8,7 @@ streams x option tuples.  Used by props/C01/check.py:
 Compared: status (OK / ERR; a different error CODE on both-refuse is soft), the reported length, the null-output
 flag, the NUL after the document and the output bytes (dump=1)."""
 import collections
+import os
 
 from . import common, gen, convcases
 from . import parser_gen as pg, parser_streams as ps
@@ -53,13 +54,15 @@ def build_cases(seed, quick, harness_c04):
 
 def correspond(seed, quick=True):
     h04 = common.build_harness("c04_harness")
-    driver = common.build_driver("C01c")
+    driver = _big_stack(common.build_driver("C01c"))
     T, cases = build_cases(seed, quick, h04)
     rng = common.Rng(seed, 72)
     lines, metas = [], []
     for c in cases:
         for _ in range(1 if quick else 2):
             lang, cs, g, ind, keep = option_tuples(rng, c["forced"] or 0)
+            if ind > 7 and c["kind"] == "nested-100":
+                ind = 7      # 100 levels x 255 blanks: MBs of output, slow in the extracted (list-based) model; 255 stays on all other kinds
             lang = c["forced"] or lang
             cs = c["meta"] or cs
             lines.append(convcases.w2x_line(c["bytes"], "run", lang, cs, g, ind, keep, dump=1))
@@ -95,3 +98,15 @@ def correspond(seed, quick=True):
 def _c01_harness():
     """the C01 harness exactly as props/C01/check.py builds it (library variant with the allocation wrappers)"""
     return common.build_harness("c01_harness", tag="-vfmem", libs=("-lexpat", "-lpthread"))
+
+
+def _big_stack(exe):
+    """the extracted program is not tail recursive (list append on outputs of several MB): run it with a large
+    system stack (the C side has its own limits; this only concerns the executable form of the model)"""
+    sh = exe + ".bigstack.sh"
+    txt = "#!/bin/sh\nulimit -s unlimited 2>/dev/null || ulimit -s 4000000 2>/dev/null || ulimit -s 1000000 2>/dev/null\nexec %s\n" % exe
+    if not os.path.exists(sh) or open(sh).read() != txt:
+        with open(sh, "w") as f:
+            f.write(txt)
+        os.chmod(sh, 0o755)
+    return sh
